@@ -157,7 +157,10 @@ def run_session(scn, sched, keep_sim=True, max_decisions=None, extra_setup=None)
             run.server = server
             server.run()
 
-    sim.spawn(server_main, 'server')
+    # the table manager is one OS process (main thread + the threads it starts), every player
+    # another; when a process exits its daemon threads die and the OS closes its sockets
+    sim.spawn(server_main, 'server', proc='server')
+    sim.on_process_exit.append(netw.process_exit)
 
     fam = scn.get('family', 'S1')
     abort = scn.get('abort') or {}
@@ -177,7 +180,7 @@ def run_session(scn, sched, keep_sim=True, max_decisions=None, extra_setup=None)
                 vanish = (abort['board'], abort['phase'], abort['index'], 'any')
             pl = make_player(scn, seat, spec, f'client:{seat}', overrides=overrides, vanish=vanish)
             run.players.append(pl)
-            sim.spawn(pl.run, pl.name)
+            sim.spawn(pl.run, pl.name, proc=pl.name)
     if extra_setup:
         extra_setup(run)
 
